@@ -20,6 +20,13 @@
 
    State-resident placements (key inside the state of a Start function, mac/hash inside the
    state of a StepG function):
+   Math headers (word arrays; addresses are octet offsets, multiples of the word size; n in words; w decimal):
+     wwCopy A b a n | wwXor A c a b n | wwXor2 A b a n | zzAdd A c a b n | zzAdd2 A b a n | zzAdd3 A c a n b m
+     zzAddW A b a n w | zzSub | zzSub2 | zzSubW | zzNeg A b a n | zzMulW A b a n w | zzAddMulW | zzSubMulW | zzDivW A q a n w
+     zzAddMod A c a b mod n | zzSubMod | zzAddWMod A b a w mod n | zzSubWMod | zzNegMod A b a mod n | zzDoubleMod | zzHalfMod
+     ppMulW A b a n w | ppAddMulW A b a n w                      -> `<returned word or -> <arena>`
+   DSTU (standard curve i = 0..9 of dstuParamsStd):
+     dstuBase i -> base point P;  dstuPointCompress A xpoint point i | dstuPointRecover A point xpoint i
      keep <mode>                          -> `<keep size>`
      start <mode> A koff len keyhex ivhex -> probe output of the state after Start(state=A, key=A+koff | keyhex if koff=N)
      stepg <mode> A moff n datahex        -> the n octets produced by StepG(mac = A+moff | separate if moff=N, state=A)
@@ -30,6 +37,10 @@
 #include <bee2/core/util.h>
 #include <bee2/crypto/belt.h>
 #include <bee2/crypto/bash.h>
+#include <bee2/crypto/dstu.h>
+#include <bee2/math/ww.h>
+#include <bee2/math/zz.h>
+#include <bee2/math/pp.h>
 static void handle(int argc, char** argv);
 #include "common.h"
 
@@ -138,6 +149,55 @@ static void do_stepg(int argc, char** argv)
 	hex_free(data, dl);
 }
 
+#define W(i) ((word*)P(i))
+#define WU(i) ((word)strtoull(argv[i], 0, 10))
+static void finish_word(word r) { printf("%llu ", (unsigned long long)r); put_hex(A, An); }
+
+static const char* dstu_names[] = {
+	"1.2.804.2.1.1.1.1.3.1.1.1.2.0", "1.2.804.2.1.1.1.1.3.1.1.1.2.1", "1.2.804.2.1.1.1.1.3.1.1.1.2.2",
+	"1.2.804.2.1.1.1.1.3.1.1.1.2.3", "1.2.804.2.1.1.1.1.3.1.1.1.2.4", "1.2.804.2.1.1.1.1.3.1.1.1.2.5",
+	"1.2.804.2.1.1.1.1.3.1.1.1.2.6", "1.2.804.2.1.1.1.1.3.1.1.1.2.7", "1.2.804.2.1.1.1.1.3.1.1.1.2.8",
+	"1.2.804.2.1.1.1.1.3.1.1.1.2.9" };
+
+/* returns 1 if the op was a math/dstu op */
+static int handle_math(int argc, char** argv)
+{
+	static octet stack[4096];
+	if (IS("wwCopy") && argc >= 5) wwCopy(W(2), W(3), U(4)), finish_void();
+	else if (IS("wwXor") && argc >= 6) wwXor(W(2), W(3), W(4), U(5)), finish_void();
+	else if (IS("wwXor2") && argc >= 5) wwXor2(W(2), W(3), U(4)), finish_void();
+	else if (IS("zzAdd") && argc >= 6) finish_word(zzAdd(W(2), W(3), W(4), U(5)));
+	else if (IS("zzSub") && argc >= 6) finish_word(zzSub(W(2), W(3), W(4), U(5)));
+	else if (IS("zzAdd2") && argc >= 5) finish_word(zzAdd2(W(2), W(3), U(4)));
+	else if (IS("zzSub2") && argc >= 5) finish_word(zzSub2(W(2), W(3), U(4)));
+	else if (IS("zzAdd3") && argc >= 7) finish_word(zzAdd3(W(2), W(3), U(4), W(5), U(6)));
+	else if (IS("zzAddW") && argc >= 6) finish_word(zzAddW(W(2), W(3), U(4), WU(5)));
+	else if (IS("zzSubW") && argc >= 6) finish_word(zzSubW(W(2), W(3), U(4), WU(5)));
+	else if (IS("zzNeg") && argc >= 5) zzNeg(W(2), W(3), U(4)), finish_void();
+	else if (IS("zzMulW") && argc >= 6) finish_word(zzMulW(W(2), W(3), U(4), WU(5)));
+	else if (IS("zzAddMulW") && argc >= 6) finish_word(zzAddMulW(W(2), W(3), U(4), WU(5)));
+	else if (IS("zzSubMulW") && argc >= 6) finish_word(zzSubMulW(W(2), W(3), U(4), WU(5)));
+	else if (IS("zzDivW") && argc >= 6) finish_word(zzDivW(W(2), W(3), U(4), WU(5)));
+	else if (IS("zzAddMod") && argc >= 7) zzAddMod(W(2), W(3), W(4), W(5), U(6)), finish_void();
+	else if (IS("zzSubMod") && argc >= 7) zzSubMod(W(2), W(3), W(4), W(5), U(6)), finish_void();
+	else if (IS("zzAddWMod") && argc >= 7) zzAddWMod(W(2), W(3), WU(4), W(5), U(6)), finish_void();
+	else if (IS("zzSubWMod") && argc >= 7) zzSubWMod(W(2), W(3), WU(4), W(5), U(6)), finish_void();
+	else if (IS("zzNegMod") && argc >= 6) zzNegMod(W(2), W(3), W(4), U(5)), finish_void();
+	else if (IS("zzDoubleMod") && argc >= 6) zzDoubleMod(W(2), W(3), W(4), U(5)), finish_void();
+	else if (IS("zzHalfMod") && argc >= 6) zzHalfMod(W(2), W(3), W(4), U(5)), finish_void();
+	else if (IS("ppMulW") && argc >= 6 && ppMulW_deep(U(4)) <= sizeof stack) finish_word(ppMulW(W(2), W(3), U(4), WU(5), stack));
+	else if (IS("ppAddMulW") && argc >= 6 && ppAddMulW_deep(U(4)) <= sizeof stack) finish_word(ppAddMulW(W(2), W(3), U(4), WU(5), stack));
+	else if ((IS("dstuPointCompress") || IS("dstuPointRecover")) && argc >= 5)
+	{
+		dstu_params prm;
+		if (U(4) >= 10 || dstuParamsStd(&prm, dstu_names[U(4)]) != ERR_OK) { printf("bad-op"); return 1; }
+		if (IS("dstuPointCompress")) finish_err(dstuPointCompress(P(2), &prm, P(3)));
+		else finish_err(dstuPointRecover(P(2), &prm, P(3)));
+	}
+	else return 0;
+	return 1;
+}
+
 static void handle(int argc, char** argv)
 {
 	mode6_f f6 = 0;
@@ -147,7 +207,15 @@ static void handle(int argc, char** argv)
 	if (IS("keep")) { printf("%zu", keep_of(argv[1])); return; }
 	if (IS("start") && argc >= 7) { A = hex_arg(argv[2], &An); do_start(argc, argv); hex_free(A, An); return; }
 	if (IS("stepg") && argc >= 6) { A = hex_arg(argv[2], &An); do_stepg(argc, argv); hex_free(A, An); return; }
+	if (IS("dstuBase"))
+	{
+		dstu_params prm;
+		if (U(1) >= 10 || dstuParamsStd(&prm, dstu_names[U(1)]) != ERR_OK) { printf("bad-op"); return; }
+		printf("%u ", (unsigned)O_OF_B(prm.p[0])); put_hex(prm.P, 2 * O_OF_B(prm.p[0]));
+		return;
+	}
 	A = hex_arg(argv[1], &An);
+	if (handle_math(argc, argv)) { hex_free(A, An); return; }
 	if (IS("memMove") && argc >= 5) memMove(P(2), P(3), U(4)), finish_void();
 	else if (IS("memJoin") && argc >= 7) memJoin(P(2), P(3), U(4), P(5), U(6)), finish_void();
 	else if (IS("memXor") && argc >= 6) memXor(P(2), P(3), P(4), U(5)), finish_void();
